@@ -162,14 +162,26 @@ def explicit_argument_sets(n, M):
              [-1] + ident_p[1:] if n else None]
     bad_c = [ident_c + [M], list(range(1, M + 1)) if M else [0], [0] * M if M > 1 else None,
              ident_c[:-1] if M else None, [-1] + ident_c[1:] if M else None]
+    # entries that are not integers at all
+    if n >= 2:
+        mid = n // 2
+        for odd in (ident_p[mid] + 0.5, str(ident_p[mid]), None, ident_p[mid] - 0.5):
+            bad_p.append(ident_p[:mid] + [odd] + ident_p[mid + 1:])
+        bad_f.append(ident_f[:mid] + [0.5] + ident_f[mid + 1:])
+        bad_f.append(ident_f[:mid] + ['1'] + ident_f[mid + 1:])
+    if M >= 2:
+        bad_c.append(ident_c[:1] + [ident_c[1] - 0.5] + ident_c[2:])
+        bad_c.append(ident_c[:1] + [str(ident_c[1])] + ident_c[2:])
+    def ints(b):
+        return all(type(x) is int for x in b)
     for b in bad_f:
-        if b is not None and not (len(b) == n and all(abs(x) == 1 for x in b)):
+        if b is not None and not (ints(b) and len(b) == n and all(abs(x) == 1 for x in b)):
             yield 'flips', b, ident_p, ident_c
     for b in bad_p:
-        if b is not None and sorted(b) != ident_p:
+        if b is not None and not (ints(b) and sorted(b) == ident_p):
             yield 'variables', ident_f, b, ident_c
     for b in bad_c:
-        if b is not None and sorted(b) != ident_c:
+        if b is not None and not (ints(b) and sorted(b) == ident_c):
             yield 'clauses', ident_f, ident_p, b
 
 
@@ -234,6 +246,8 @@ def check_explicit(case, R=None):
     def as_range(seq):
         # the range object that lists the same numbers, when there is one
         seq = list(seq)
+        if not all(type(x) is int for x in seq):
+            return None
         if len(seq) >= 2:
             r = range(seq[0], seq[-1] + (1 if seq[1] > seq[0] else -1), seq[1] - seq[0]) \
                 if seq[1] != seq[0] else None
@@ -269,6 +283,12 @@ def check_explicit(case, R=None):
                     R.stats['explicit_invalid_rejected'] += 1
                 continue
             except Exception as e:
+                offending = {'flips': fl, 'variables': pm, 'clauses': cp}.get(kind, [])
+                if kind != 'valid' and isinstance(e, TypeError) and not all(type(x) is int for x in offending):
+                    # an entry that is not a number at all: TypeError is a rejection too
+                    if R is not None:
+                        R.stats['explicit_invalid_rejected'] += 1
+                    continue
                 bad('exception:%s:%s' % (kind, type(e).__name__), '%r' % (e,), extra)
                 continue
             if kind != 'valid':
@@ -536,6 +556,18 @@ def check_big(case):
     nf, nv, nc = case['switches']
     flags = (['-p'] if nf else []) + (['-v'] if nv else []) + (['-c'] if nc else [])
     text = 'p cnf %d %d\n' % (n, len(clauses)) + ''.join(' '.join(map(str, c)) + ' 0\n' for c in clauses)
+    if case.get('align'):
+        # an input longer than 2^20 characters in which a line starts exactly at
+        # that offset (a comment line of the right length is put in front)
+        pos = best = 0
+        for ln in text.split('\n'):
+            if pos > (1 << 20) - 3:
+                break
+            best = pos                   # the last line start at least 3 characters before 2^20
+            pos += len(ln) + 1
+        pad = (1 << 20) - best           # length of the comment line that moves it onto 2^20
+        text = 'c ' + 'x' * (pad - 3) + '\n' + text
+        assert len(text) > (1 << 20) and text[(1 << 20) - 1] == '\n'
     out = []
 
     def bad(sym, what):
@@ -731,7 +763,11 @@ def shards(tier, seed):
     bigs = [{'part': 'big', 'entry': e, 'M': M, 'switches': list(sw), 'seed': seed + 11}
             for e in ('cnfshuffle', 'cnfgen-T') for M in ((10007, 20011) if e == 'cnfshuffle' else (10007,))
             for sw in ((True, True, True), (True, True, False), (False, False, False))]
-    for i, ch in enumerate(scope.stripe(bigs, 3)):
+    bigs.append({'part': 'big', 'entry': 'cnfshuffle', 'M': 200000, 'switches': [True, True, True],
+                 'seed': seed + 11, 'align': True})
+    bigs.append({'part': 'big', 'entry': 'cnfgen-T', 'M': 200000, 'switches': [True, True, False],
+                 'seed': seed + 11, 'align': True})
+    for i, ch in enumerate(scope.stripe(bigs, 4)):
         out.append(('big%d' % i, 'run_big', ch))
     rnd.sort(key=lambda c: -weight(c))
     k = 48
